@@ -19,7 +19,7 @@ _WDIR = None
 _PROP = None
 
 
-class CaseTimeout(Exception):
+class CaseTimeout(BaseException):   # not an Exception: the `except Exception` blocks of the checks must not swallow it
     pass
 
 
